@@ -27,6 +27,42 @@ def stratum(pid, i, k, n):
     return (zlib.crc32(("%s/%s/%s" % (pid, i, k)).encode()) >> 4) % n
 
 
+NEAR_LOGICAL_IDS = [[0, 1, -1], [1, -1, 0], [-1, 1, 0], [0, -1, 1], [-1, 0, 1], [1, 0, -1]]
+
+
+def _near_logical(cats, prefix):
+    """Some 3- and 4-category variables get the ids of a selection dimension (1, 0, -1) without
+    being one: a 0/1-coded yes/no question lists them in another order, or carries a fourth
+    category, or has no `selected` flag at all. Only the exact list [1, 0, -1] *with* a
+    selected category is the selection dimension of a logical / multiple-response variable;
+    everything else is an ordinary categorical (array) and tabulated as such. Decided by a
+    hash of what has been drawn already, so the random stream of the case is not disturbed."""
+    import zlib
+
+    n = len(cats)
+    if n not in (3, 4):
+        return
+    h = zlib.crc32(repr([(c["name"], c["missing"]) for c in cats]).encode()) >> 3
+    if h % 3:
+        return
+    h //= 3
+    ids = list(NEAR_LOGICAL_IDS[h % 6])
+    h //= 6
+    flagged = True
+    if n == 4:
+        ids = [1, 0, -1, 7] if h % 2 else ids + [2]
+    elif ids == [1, 0, -1]:
+        flagged = False  # the ids in the order of a selection dimension, nobody `selected`
+    for c, i in zip(cats, ids):
+        c["id"] = i
+        c["name"] = "%s%s_%d" % (prefix, "m" if c["missing"] else "", i)
+        c.pop("selected", None)
+    if flagged:
+        for c in cats:
+            if c["id"] == 1 or (c["id"] == 0 and h % 5 == 0):
+                c["selected"] = True
+
+
 class G:
     def __init__(self, seed):
         self.r = random.Random(seed)
@@ -94,7 +130,7 @@ class G:
 
     # -- variables ---------------------------------------------------------------------
     def cat(self, N, n_valid=None, n_missing=None, kind="cat", numeric="some",
-            prefix="c", reorder=None, p_zero=0.2, id_style=None):
+            prefix="c", reorder=None, p_zero=0.2, id_style=None, near_logical=None):
         r = self.r
         n_valid = r.randint(1, 5) if n_valid is None else n_valid
         n_missing = r.choice([0, 0, 1, 1, 2, 3]) if n_missing is None else n_missing
@@ -140,6 +176,8 @@ class G:
             cats.append(c)
         if kind == "cat_date" and not any("date" in c for c in cats):
             kind = "cat"
+        if kind == "cat" and near_logical is not False:
+            _near_logical(cats, prefix)
         ans = self.draw(self.probs(n, p_zero), N)
         data_order = None
         if reorder is None:
